@@ -50,7 +50,7 @@ def oldDropChecks : Bool := false
 def oldAgeSaturates : Bool := false
 
 theorem old_acquire_shape :
-    Lock.expectedAcquireShape oldAbandon oldPublishByLink =
+    Lock.expectedAcquireShape oldAbandon oldPublishByLink false =
       [.exists, .fileOpen, .readToString, .removeFile, .removeFile, .createDirAll,
        .openOptionsNew, .optWrite, .optCreateNew, .optOpen, .writeAll, .removeFile] ∧
     Lock.expectedDropShape oldDropChecks = [.exists, .removeFile] := by decide
